@@ -73,9 +73,10 @@ class Ref:
 class Obj:
   """A folded dataclass instance."""
 
-  def __init__(self, cls: str, fields: dict[str, Any]):
+  def __init__(self, cls: str, fields: dict[str, Any], nocmp=frozenset()):
     self.cls = cls
     self.fields = fields
+    self.nocmp = frozenset(nocmp)   # dataclass fields declared with compare=False
     self._fz = None
 
   def touch(self):
@@ -83,18 +84,23 @@ class Obj:
 
   def frozen(self):
     if self._fz is None:
-      self._fz = (self.cls, _freeze(self.fields))
+      self._fz = (self.cls, _freeze({k: v for k, v in self.fields.items() if k not in self.nocmp} if self.nocmp else self.fields))
     return self._fz
 
   def __eq__(self, other):
-    return isinstance(other, Obj) and self.frozen() == other.frozen()
+    if not isinstance(other, Obj):
+      return False
+    if self.nocmp != other.nocmp:
+      skip = self.nocmp | other.nocmp
+      return self.cls == other.cls and _freeze({k: v for k, v in self.fields.items() if k not in skip}) == _freeze({k: v for k, v in other.fields.items() if k not in skip})
+    return self.frozen() == other.frozen()
 
   def __hash__(self):
     return hash(self.frozen())
 
   def __deepcopy__(self, memo):
     import copy  # pylint: disable=g-import-not-at-top
-    return Obj(self.cls, copy.deepcopy(self.fields, memo))
+    return Obj(self.cls, copy.deepcopy(self.fields, memo), self.nocmp)
 
   def __repr__(self):
     inner = ', '.join(f'{k}={v!r}' for k, v in self.fields.items())
@@ -441,7 +447,14 @@ class Evaluator:
             if f.default is None:
               raise NotConstant(f'{ci.name}: missing {f.name}')
             fields[f.name] = self.eval(f.default, ci.module, {}, depth + 1)
-        return Obj(ci.fq, fields)
+        nocmp = set()
+        for f in ci.fields:
+          d = f.default
+          if isinstance(d, ast.Call) and ast.unparse(d.func).endswith('field'):
+            for k in d.keywords:
+              if k.arg == 'compare' and isinstance(k.value, ast.Constant) and k.value.value is False:
+                nocmp.add(f.name)
+        return Obj(ci.fq, fields, nocmp)
     raise NotConstant(f'call {fname}')
 
 
